@@ -342,6 +342,9 @@ impl Harness for C08 {
         let jobs = {
             let mut j: Vec<Job> = jobs;
             j.insert(0, Job::new("builders", json!({"kind": "builders"})));
+            for i in 0..mc_sc::entry::n_parts("C08") {
+                j.insert(1 + i, Job::new(format!("entry-{}", i), json!({"kind": "entry", "part": i})));
+            }
             j
         };
         Plan {
@@ -350,6 +353,7 @@ impl Harness for C08 {
             case_deadline_ms: 20_000,
             floors: vec![
                 ("builder_chains", 5),
+                ("entry_cases", 1000),
                 ("fits_ok", 500_000),
                 ("judged_lasso_normalized", 100_000),
                 ("judged_lasso_raw", 100_000),
@@ -369,6 +373,7 @@ impl Harness for C08 {
             ],
             bounds: json!({
                 "builders": mc_sc::builders::BOUNDS,
+                "entry_paths": mc_sc::entry::BOUNDS,
                 "lattice_lasso": if t {
                     "every X over S4={0,1,-1,2} (no constant column) for (p,n) in {(1,2),(1,3),(1,4),(2,3)}, over S3={0,1,-1} for (2,4), over {0,1} for (2,5) and (3,4); every y over {0,1,-2,3}^n; alpha {0.1,1,1e-3,10} x normalize {on,off} x tol {1e-4,1e-3,1e-6} x shift {0,10,1e4}"
                 } else {
@@ -384,6 +389,9 @@ impl Harness for C08 {
     }
 
     fn run(&self, job: &Job) {
+        if job.kind() == "entry" {
+            return mc_sc::entry::run_part("C08", job.u("part"));
+        }
         let seed = job.params["seed"].as_u64().unwrap_or(0);
         match job.kind() {
             "lat" => run_lattice(job, seed),
